@@ -180,7 +180,11 @@ def check(S, u, fname):
             o = o[0]; g = []
             if not al: g += [('sizeof==L*sizeof(T)', o[0] == I64(L * s)), ('alignof==alignof(T)', o[1] == I64(s))]
             elif ct == 'float' and L in ALIGNED_F32: g += [('sizeof-aligned-documented', o[0] == I64(ALIGNED_F32[L])), ('alignof-aligned-documented', o[1] == I64(ALIGNED_F32[L]))]
-            else: g += [('sizeof>=L*sizeof(T)', z3.UGE(o[0], I64(L * s))), ('sizeof%alignof==0', z3.URem(o[0], o[1]) == 0), ('alignof>=alignof(T)', z3.UGE(o[1], I64(s)))]
+            else:
+                g += [('sizeof>=L*sizeof(T)', z3.UGE(o[0], I64(L * s))), ('sizeof%alignof==0', z3.URem(o[0], o[1]) == 0), ('alignof>=alignof(T)', z3.UGE(o[1], I64(s)))]
+                # manual.md 2.9: 'aligned GLM types align addresses based on the size of the value type of a GLM type': an aligned vector is aligned to its own size
+                # (L * sizeof(T) for L = 1, 2, 4; a vec3 is stored and aligned like the vec4)
+                if k == 'vfacts': g += [('aligned: sizeof==%d*sizeof(T)' % (4 if L == 3 else L), o[0] == I64((4 if L == 3 else L) * s)), ('aligned: alignof>=min(sizeof,16)', z3.UGE(o[1], z3.If(z3.ULT(o[0], I64(16)), o[0], I64(16))))]         # 32-byte vectors may be two 16-byte SIMD registers below AVX
             g += len_goals(o, 2, L, m['cfg'])
             if k == 'vfacts': g += [('&v.x==&v', o[6] == 0), ('value_ptr(v)==&v', o[7] == 0)]
             else: g += [('value_ptr(q)==&q', o[6] == 0)]
@@ -277,6 +281,7 @@ def build(tier):
         us += layout_units('defal', ['float'], ['defaultp', 'packed_highp'])
         us += layout_units('avx2', ['float', 'double'], ['aligned_highp'])
         us += layout_units('swzop', ['float', 'uint8_t'], ['packed_highp', 'aligned_highp'], shapes=[(2, 2), (3, 3), (4, 3), (2, 4)])      # operator swizzles put proxy members into the vec unions
+        us += layout_units('algen', ['float', 'int', 'bool', 'int16_t', 'int64_t'], ['aligned_highp', 'aligned_mediump'], shapes=[(3, 3)]); us.append(named_unit('algen'))       # aligned types without SIMD (generic storage<L,T,true>)
     else:
         us += layout_units('default', SCAL, PQ)
         for cfg in ('sse2', 'avx', 'avx2', 'algen'): us += layout_units(cfg, SCAL, AQ + PQ)
